@@ -147,6 +147,7 @@ def run(tier, seed):
                 ck.violation({"fn": "quick_tidal_dissipation.love_number_by_orderl", "l": l},
                              "quick_tidal_dissipation love_number_by_orderl[%d] = %r, closed form %r (rel %.3g)" % (l, got, kk, e),
                              {"R": Rr, "rho": rho, "mu": mu, "eta": eta, "n": n, "lmax": lmax})
+    solver_agreement(ck, rng, 6 if tier == "quick" else 40, L)
     ck.cov["traces_validated_against_impl"] = len(rows)
     for row in rows[:2] + rows[-1:]:
         ck.sample({"l": row[1], "mu": list(row[2]), "rho_g_R": list(row[3]), "J*mu": [list(row[4]), list(row[5])],
@@ -157,8 +158,52 @@ def run(tier, seed):
         raise MachineryError("negative control failed")
     ck.notes["negative_control"] = "a 1e-12 relative perturbation of m_l exceeds the 8-ulp tolerance"
     ck.cov["rule"] = "one case = one exact lattice row (l, mu, rho g R, J) evaluated through every helper/implementation, or one (body, l) of the quick-dissipation closed-form comparison"
-    ck.assumptions += ["solver-agreement clause of C12 is decided by the C01 check (shared driver)", "lattice values are small rationals; rescaling by 2^30 checks homogeneity exactly"]
+    ck.assumptions += ["solver agreement: uniform bodies with the incompressible flag at a quasi-static frequency, tolerance 5e-5 absolute on k", "lattice values are small rationals; rescaling by 2^30 checks homogeneity exactly"]
     return ck.finish()
+
+
+def solver_agreement(ck, rng, nbodies, L):
+    """C12's last clause: TidalPy's own one-layer Love number (effective_rigidity_general + complex_love_general, fed with a Maxwell
+    complex compliance) agrees with the layered radial solver applied to the same uniform incompressible body (complex rigidity
+    1/J, incompressible flag, quasi-static frequency)."""
+    import math
+    import numpy as np
+    from ..solver_lib import make_planet, solve
+    G = 6.67430e-11
+    worst = 0.0
+    n_ok = 0
+    for t in range(nbodies):
+        R = 10 ** rng.uniform(5.5, 7.3)
+        rho = rng.uniform(1500, 8000)
+        mu = 10 ** rng.uniform(9.7, 11.2)
+        eta = 10 ** rng.uniform(14, 22)
+        l = rng.choice([2, 2, 3, 4, 5])
+        g = 4.0 / 3.0 * math.pi * G * rho * R
+        w = 1.0e-4 * math.sqrt(4.0 / 3.0 * math.pi * G * rho)          # quasi-static: w^2 R / g = 1e-8
+        J = 1.0 / mu - 1.0j / (eta * w)                                  # Maxwell compliance
+        eff = L.effective_rigidity_general(mu, g, R, rho, order_l=l)
+        k_tpy = complex(L.complex_love_general(J, mu, eff, order_l=l))
+        p = make_planet([dict(type="solid", R=R, rho=rho, mu=1.0 / J, K=1.0e13, static=False, incompressible=True)], n_per_layer=40, r0_frac=1e-2)
+        try:
+            s = solve(p, w, degree_l=l, solve_for=("tidal",), use_kamata=True, integration_method="DOP853", integration_rtol=1e-10, integration_atol=1e-13,
+                      nondimensionalize=True, warnings=False)
+        except Exception as ex:
+            ck.violation({"fn": "radial_solver", "clause": "solver_agreement_raises"}, "radial_solver raised %s on a uniform incompressible body" % type(ex).__name__, {})
+            continue
+        if not s["success"]:
+            continue
+        n_ok += 1
+        k_sol = complex(s["love"][0][0])
+        d = abs(k_sol - k_tpy)
+        worst = max(worst, d)
+        ck.case(("solver_agreement", t, l), True)
+        if not d <= 5e-5:      # calibrated: worst 1.05e-5 over 150 bodies (stiff l = 5 bodies: k = y5 - 1 is formed by cancellation); a wrong coefficient moves k by >= 1e-3
+            ck.violation({"fn": "complex_love_general", "clause": "solver_agreement", "l": l},
+                         "one-layer Love number k_%d = %r (effective_rigidity_general + complex_love_general), layered radial solver on the same uniform incompressible body gives %r (|diff| %.3g)" % (l, k_tpy, k_sol, d),
+                         {"R": R, "rho": rho, "mu": mu, "eta": eta, "frequency": w, "l": l})
+    if n_ok < nbodies // 2:
+        raise MachineryError("solver agreement: only %d of %d uniform bodies solved" % (n_ok, nbodies))
+    ck.notes["solver_agreement"] = {"bodies": n_ok, "worst_abs_difference": worst}
 
 
 def replay(path):
